@@ -466,3 +466,82 @@ def _under_null_mask(f, b, MASK):
         if (pred == 'eq') == taken_true:
             return True
     return False
+
+
+def r7_set_sat(ck, P):
+    """finite orderings: the channel classification of the HSL saturation helper"""
+    import itertools
+    R = ck.rule('C01-R7', 'on every path through its comparison tree the HSL saturation helper names as max/mid/min three distinct channels whose order is implied by the comparisons taken (checked against all weak orderings of r, g, b)', floor=6)
+    u = P.units.get('pixman-combine-float.c')
+    f = u.functions.get('set_sat') if u else None
+    if f is None:
+        ck.incomplete(R, 'set_sat not found in pixman-combine-float.c'); return
+    ck.saw(f)
+    phis = {x.dv: x for x in f.insts() if x.op == 'phi' and x.ty.endswith('*') and x.dv in ('max', 'mid', 'min')}
+    if set(phis) != {'max', 'mid', 'min'} or len({x.bb.id for x in phis.values()}) != 1:
+        ck.incomplete(R, 'the max/mid/min selection of set_sat is no longer three pointer phis in one join block'); return
+    J = next(iter(phis.values())).bb.id
+
+    def field(o):
+        p = f.path(o)
+        lf = f.last_field(p)
+        return lf.split('.')[-1] if lf and f.root(p) == ('arg', 0) else None
+
+    def resolve(o, trail):
+        """field a pointer value denotes on this path (trail = list of blocks visited)"""
+        x = f.v(o)
+        if x is not None and x.op == 'phi':
+            for a, bb in zip(x.a, x.d['bb']):
+                # the incoming block that this path came through
+                idx = trail.index(x.bb.id) if x.bb.id in trail else None
+                if idx is not None and idx > 0 and trail[idx - 1] == bb:
+                    return resolve(a, trail[:idx])
+            return None
+        return field(o)
+
+    paths = []
+
+    def walk(b, trail, conds):
+        trail = trail + [b]
+        if b == J:
+            paths.append((trail, conds)); return
+        t = f.blocks[b].term
+        if t.op == 'br' and t.a:
+            c = f.v(t.a[0])
+            if c is None or c.op != 'fcmp' or c.d['p'] not in ('ogt', 'olt', 'oge', 'ole'):
+                raise Unknown('branch that is not an ordered comparison of two channels')
+            l, r = f.v(c.a[0]), f.v(c.a[1])
+            if l is None or r is None or l.op != 'load' or r.op != 'load':
+                raise Unknown('comparison of something other than two channel loads')
+            fl, fr = field(l.a[0]), field(r.a[0])
+            if fl is None or fr is None:
+                raise Unknown('comparison operand is not a channel of the colour argument')
+            for sidx, s_ in enumerate(t.d['succ']):
+                walk(s_, trail, conds + [(c.d['p'], fl, fr, sidx == 0)])
+        else:
+            for s_ in f.blocks[b].succ:
+                walk(s_, trail, conds)
+
+    try:
+        walk(0, [], [])
+    except Unknown as e:
+        ck.incomplete(R, 'set_sat: %s' % e); return
+    OPS = {'ogt': lambda a, b: a > b, 'olt': lambda a, b: a < b, 'oge': lambda a, b: a >= b, 'ole': lambda a, b: a <= b}
+    for trail, conds in paths:
+        sel = {k: resolve(['v', ph.i], trail) for k, ph in phis.items()}
+        desc = ' and '.join('%s %s %s' % (a, {'ogt': '>', 'olt': '<', 'oge': '>=', 'ole': '<='}[p] if tv else {'ogt': '<=', 'olt': '>=', 'oge': '<', 'ole': '>'}[p], b) for p, a, b, tv in conds)
+        if None in sel.values() or len(set(sel.values())) != 3:
+            ck.violation(R, f.name, 'path ' + desc, 'on the path %s set_sat names %s as max/mid/min: not three distinct channels' % (desc, sel), '%s:%d' % (u.name, f.line)); continue
+        feasible = False; bad = None
+        for rk in itertools.product(range(3), repeat=3):
+            val = dict(zip(('r', 'g', 'b'), rk))
+            if all(OPS[p](val[a], val[b]) == tv for p, a, b, tv in conds):
+                feasible = True
+                if not (val[sel['max']] >= val[sel['mid']] >= val[sel['min']]):
+                    bad = val; break
+        if not feasible:
+            ck.ok(R, 'path %s: infeasible' % desc); continue
+        if bad:
+            ck.violation(R, f.name, 'path ' + desc, 'on the path %s set_sat takes max=%s, mid=%s, min=%s, but e.g. the ordering r=%d g=%d b=%d satisfies the comparisons and contradicts it: the wrong channel is zeroed / scaled' % (desc, sel['max'], sel['mid'], sel['min'], bad['r'], bad['g'], bad['b']), '%s:%d' % (u.name, f.line))
+        else:
+            ck.ok(R, 'path %s: max=%s mid=%s min=%s' % (desc, sel['max'], sel['mid'], sel['min']))
